@@ -64,7 +64,9 @@ type vMasterError struct {
 // Error renders like the driver's MySQLError ("Error <number>: <message>").
 func (e *vMasterError) Error() string { return fmt.Sprintf("Error %d: %s", e.code, e.msg) }
 
-var errConnLost = errors.New("model: connection lost")
+// what the bundled driver returns when a read from the socket fails (packets.go: the cause is logged,
+// the connection closed, ErrInvalidConn returned)
+var errConnLost error = mysql.ErrInvalidConn
 var errModelClosed = errors.New("model: connection closed locally")
 var errModelFail = errors.New("model: scripted failure")
 
